@@ -284,8 +284,13 @@ func VH_C05_listraw() {
 // word in front), the slot is word 0 of segment 0 or of segment 1; segment lengths, capacities,
 // contents, element count and (nine) element sizes stay symbolic. All three placements (near, far
 // with landing pad in the source segment, double-far) are reachable through the capacities.
-func VH_C04_writeread_composite_small() {
-	msg, segs := vMsgRW(2)
+func VH_C04_writeread_composite_small() { vWritereadComposite(vMaxSeg) }
+
+// the same with segments of at most 256 bytes: every counterexample replays natively
+func VH_C04_writeread_composite_tiny() { vWritereadComposite(256) }
+
+func vWritereadComposite(maxSeg int) {
+	msg, segs := vMsgRWMax(2, maxSeg)
 	src := List{seg: segs[0], length: int32(vNondetU32()), depthLimit: maxDepth, flags: isCompositeList}
 	src.size = vSmallSize()
 	if vNondetBool() {
@@ -328,5 +333,51 @@ func VH_C04_writeread_composite_small() {
 		vAssert(tsi == 0 && obj == int64(src.off)-8, "C05.place.composite.designates-tag-word")
 		vAssert(refKind(desc) == 1 && refElemCode(desc) == 7, "C05.place.composite.code")
 		vAssert(8*int64(refElemCount(desc)) == int64(src.size.totalSize())*int64(src.length), "C05.place.composite.word-count")
+	}
+}
+
+// NewCompositeList with any element size (data sizes that are not whole words included): the tag
+// word, the stride used by the accessors and the storage actually claimed agree - the next object
+// allocated starts after the last element, and writing every element leaves it untouched.
+func VH_C05_new_composite_list() {
+	_, seg := vMsgRW1()
+	d := Size(vNondetU8())
+	vAssume(d <= 24)
+	p := uint16(vConc(int(vNondetU8()), 2))
+	n := int32(vConc(int(vNondetU8()), 4))
+	l, err := NewCompositeList(seg, ObjectSize{DataSize: d, PointerCount: p}, n)
+	vReach("returned")
+	if err != nil {
+		return
+	}
+	vReach("ok")
+	dw := (int64(d) + 7) / 8
+	stride := 8 * (dw + int64(p))
+	ls := l.seg
+	tag := refLoad64(ls.data, int64(l.off)-8)
+	vAssert(refKind(tag) == 0 && refOffsetWords(tag) == int64(n) && refDataWords(tag) == uint64(dw) && refPtrWords(tag) == uint64(p), "C05.newcomposite.tag")
+	vAssert(int64(l.size.DataSize) == 8*dw && l.size.PointerCount == p, "C05.newcomposite.element-size-is-whole-words")
+	end := int64(l.off) + int64(n)*stride
+	vAssert(end <= segLen(ls), "C05.newcomposite.storage-claimed-for-every-element")
+	if end > segLen(ls) {
+		return
+	}
+	w := uint64(l.raw())
+	vAssert(refKind(w) == 1 && refElemCode(w) == 7 && 8*int64(refElemCount(w)) == int64(n)*stride, "C05.newcomposite.pointer-word-count")
+	// the next allocation does not overlap the list
+	s2, addr, err := alloc(ls, 8)
+	if err != nil {
+		return
+	}
+	vAssert(s2 != ls || int64(addr) >= end, "C05.newcomposite.next-object-disjoint")
+	if s2 == ls && n > 0 && stride > 0 {
+		s2.writeUint64(addr, 0x1122334455667788)
+		for i := 0; i < int(n); i++ {
+			e := l.Struct(i)
+			for k := int64(0); k < dw; k++ {
+				e.SetUint64(DataOffset(8*k), ^uint64(0))
+			}
+		}
+		vAssert(s2.readUint64(addr) == 0x1122334455667788, "C05.newcomposite.elements-do-not-reach-into-the-next-object")
 	}
 }
